@@ -45,11 +45,11 @@ type c04gen struct {
 }
 
 const (
-	c04Small = iota // integers, |delta| <= 107
-	c04Medium       // integers, |delta| <= 1131
-	c04Large        // integers, |delta| <= 31999
-	c04Grid         // multiples of 2^-16
-	c04Float        // arbitrary float64
+	c04Small  = iota // integers, |delta| <= 107
+	c04Medium        // integers, |delta| <= 1131
+	c04Large         // integers, |delta| <= 31999
+	c04Grid          // multiples of 2^-16
+	c04Float         // arbitrary float64
 	c04Mixed
 	c04NClasses
 )
